@@ -60,6 +60,97 @@ theorem closure_spec (nt : NodeTypes) (roots : List TypeRef) : ∀ (fuel : Nat) 
         · obtain ⟨e, he, hty, subs, hsub, htm⟩ := mem_subsOf.1 hts
           exact Reach.sub (hs s hsS) he hty hsub htm
 
+/-! ### the saturation always converges within `closureFuel` rounds -/
+
+/-- members of the typeUniverse not yet collected -/
+def missing (nt : NodeTypes) (S : List TypeRef) : Nat := ((typeUniverse nt).filter (fun t => !decide (t ∈ S))).length
+
+theorem filter_length_lt {α : Type} (U : List α) (p q : α → Bool) (hpq : ∀ x, q x = true → p x = true)
+    (x : α) (hx : x ∈ U) (hp : p x = true) (hq : q x = false) :
+    (U.filter q).length < (U.filter p).length := by
+  induction U with
+  | nil => cases hx
+  | cons y ys ih =>
+    have hle : ∀ zs : List α, (zs.filter q).length ≤ (zs.filter p).length := by
+      intro zs
+      induction zs with
+      | nil => simp
+      | cons z zs ihz =>
+        simp only [List.filter]
+        cases hqz : q z with
+        | false => cases p z <;> simp <;> omega
+        | true => simp [hpq z hqz]; omega
+    rcases List.mem_cons.1 hx with rfl | hx'
+    · simp only [List.filter, hp, hq, List.length_cons]
+      have := hle ys; omega
+    · have := ih hx'
+      simp only [List.filter]
+      cases hqy : q y with
+      | false => cases p y <;> simp <;> omega
+      | true => simp [hpq y hqy]; omega
+
+theorem subsOf_universe {nt : NodeTypes} {s t : TypeRef} (h : t ∈ subsOf nt s) : t ∈ typeUniverse nt := by
+  obtain ⟨e, he, _, subs, hs, ht⟩ := mem_subsOf.1 h
+  simp only [typeUniverse, List.mem_flatMap]
+  exact ⟨e, he, by simp [hs, ht]⟩
+
+theorem missing_step_lt {nt : NodeTypes} {S : List TypeRef} (h : closed nt S = false) :
+    missing nt (stepSet nt S) < missing nt S := by
+  have hne : ¬ (∀ s ∈ S, ∀ t ∈ subsOf nt s, t ∈ S) := by
+    intro hall
+    have := closed_iff.2 hall
+    rw [h] at this; cases this
+  -- a new element
+  have : ∃ s ∈ S, ∃ t ∈ subsOf nt s, t ∉ S :=
+    Classical.byContradiction fun hcon =>
+      hne (fun s hs t ht => Classical.byContradiction fun hts => hcon ⟨s, hs, t, ht, hts⟩)
+  obtain ⟨s, hs, t, ht, hts⟩ := this
+  unfold missing
+  apply filter_length_lt (typeUniverse nt) _ _ ?_ t (subsOf_universe ht)
+  · simp [hts]
+  · have hmem : t ∈ stepSet nt S := by
+      simp only [stepSet, List.mem_append, List.mem_filter, List.mem_flatMap]
+      exact Or.inr ⟨⟨s, hs, ht⟩, by simp [hts]⟩
+    simp [hmem]
+  · intro x hx
+    simp only [Bool.not_eq_eq_eq_not, Bool.not_true, decide_eq_false_iff_not] at hx ⊢
+    intro hxS
+    exact hx (by simp only [stepSet, List.mem_append]; exact Or.inl hxS)
+
+theorem closure_converges (nt : NodeTypes) : ∀ (fuel : Nat) (S : List TypeRef), missing nt S ≤ fuel →
+    (closure nt fuel S).isSome = true := by
+  intro fuel
+  induction fuel with
+  | zero =>
+    intro S hm
+    simp only [closure]
+    cases hc : closed nt S with
+    | true => simp
+    | false => have := missing_step_lt hc; omega
+  | succ f ih =>
+    intro S hm
+    simp only [closure]
+    cases hc : closed nt S with
+    | true => simp
+    | false =>
+      simp only [Bool.false_eq_true, if_false]
+      exact ih _ (by have := missing_step_lt hc; omega)
+
+theorem closure_isSome (nt : NodeTypes) (roots : List TypeRef) :
+    (closure nt (closureFuel nt) roots).isSome = true := by
+  apply closure_converges
+  unfold missing closureFuel
+  exact List.length_filter_le _ _
+
+/-- `ntWF` holds for every file -/
+theorem ntWF_always (nt : NodeTypes) : ntWF nt = true := by
+  simp only [ntWF, List.all_eq_true, Bool.and_eq_true]
+  intro e _
+  refine ⟨fun fs _ => closure_isSome nt _, ?_⟩
+  cases e.children with
+  | none => rfl
+  | some spec => exact closure_isSome nt _
+
 theorem allowed_iff {nt : NodeTypes} {spec : ChildSpec} {t : TypeRef}
     (h : (closure nt (closureFuel nt) spec.types).isSome = true) :
     allowed nt spec t = true ↔ Reach nt spec.types t := by
